@@ -2,7 +2,7 @@
 //! workloads, meant to be executed under Miri (`cargo +nightly miri run --bin lane -- ...`), under an
 //! AddressSanitizer build, or natively (self-test). Oracles are the same functions the checks use.
 //!
-//! usage: lane <c13|c12|c02|c08|c09|smoke> <part> <parts> <seed>
+//! usage: lane <c13|c12|c02|c08|c09|c16|smoke> <part> <parts> <seed>
 //! prints one line `LANE <name> part=<p>/<n> evaluations=<k> violations=<v>`; exit 1 if an oracle fired.
 use rand::Rng;
 use vcheck::checks::{c02, c13};
@@ -130,6 +130,13 @@ fn lane_c02(part: usize, seed: u64, n: usize, acc: &mut Acc) {
             Err(_) => acc.count("program_panicked"),
         }
     }
+}
+
+/// Transfer-fee algebra and the Pinocchio mint loader / TLV parser on well-formed and corrupted mint bytes.
+fn lane_c16(part: usize, seed: u64, n: usize, acc: &mut Acc) {
+    let mut r = rnd::rng(seed ^ (part as u64) << 32 ^ 0xc16);
+    vcheck::checks::c16::fee_slice(&mut r, n as u64, 6, acc);
+    vcheck::checks::c16::tlv_slice(&mut r, n as u64, acc);
 }
 
 fn lane_c09(part: usize, parts: usize, acc: &mut Acc) {
@@ -409,6 +416,7 @@ fn main() {
         "c02" => lane_c02(part, seed, n, &mut acc),
         "c08" => lane_c08(part, seed, n, &mut acc),
         "c09" => lane_c09(part, parts, &mut acc),
+        "c16" => lane_c16(part, seed, n, &mut acc),
         "smoke" if part % 3 == 0 => lane_smoke(seed, &mut acc),
         "smoke" if part % 3 == 1 => lane_smoke2(seed, &mut acc),
         "smoke" => lane_smoke3(seed, &mut acc),
